@@ -70,12 +70,16 @@ func b32enc(in string) string {
 	return b32encoder.EncodeToString([]byte(in))
 }
 
-// pathForKey applies sharding funcs as well as adds the basepath prefix,
+// pathForKey applies the escaping and sharding funcs as well as adds the basepath prefix,
 // returning a string ready to use as a filesystem path.
 func (store *Store) pathForKey(key string) string {
 	shards := make([]string, 1, 4) // future work: would be nice if we could reuse this rather than fresh allocating.
 	shards[0] = store.basepath     // not part of the path shard, but will be a param to Join, so, practical to put here.
 	//shards[1] = storageDir       // not part of the path shard, but will be a param to Join, so, practical to put here.
+	if store.escapingFunc != nil {
+		// Keys are arbitrary binary strings: only the escaped form is safe to use in a filesystem path.
+		key = store.escapingFunc(key)
+	}
 	store.shardingFunc(key, &shards)
 	return filepath.Join(shards...)
 }
